@@ -311,6 +311,9 @@ static jv *obs_key(const char *key, jv *call, long r, jv *extra)
     return key[1] == 'w' ? cw : key[1] == 'x' ? cx : pp;
   }
   if (!strcmp(key, "cnb")) return j_mkint(c->exec_fds_nonblock);
+  if (!strcmp(key, "fchild")) { /* what the forked child saw in fork mode: [start's return value, pid(), wait(0)] */
+    jv *a = j_mkarr(); j_push(a, j_mkint(c->forkmode_child ? c->fork_ret : -999)); j_push(a, j_mkint(c->stdin_read)); j_push(a, j_mkint(c->stdin_eof)); return a;
+  }
   if (!strcmp(key, "cexec")) return j_mkint(c->execd);
   if (!strcmp(key, "cmask")) return siglist(c->mask, 64);
   if (!strcmp(key, "cdisp")) { jv *a = j_mkarr(); for (int s = 1; s <= 31; s++) if (c->disp[s]) { jv *t = j_mkarr(); j_push(t, j_mkint(s)); j_push(t, j_mkint(c->disp[s])); j_push(a, t); } return a; }
@@ -707,7 +710,7 @@ static void fork_child_epilogue(int h, long r)
 {
   struct sk_proc *me = &K->proc[sk_cur];
   me->forkmode_child = 1;
-  me->status = (int) r; /* temporarily carries start's return value in the child */
+  me->fork_ret = (int) r;
   me->state = PS_RUNNING;
   me->execd = 0;
   if (r == 0 && h > 0 && h < MAXH && H[h]) {
